@@ -5,7 +5,7 @@ Vals = {0, 1, 127, 128, 255, 256, 16383, 16384, 2097151, 2097152, 268435455, 268
 Pads = {1}
 MaxPads = 0
 MaxLabels = 0
-PoolMax = 16384
+PoolMax = 2097152
 INIT Init
 NEXT Next
 INVARIANTS RoundTrip OffsetsIncrease LabelTable JumpTables LinesOK EmitRow
